@@ -37,6 +37,22 @@ S_H == <<72>>
 S_push == <<112, 117, 115, 104>>
 S_hasOwnProperty == <<104, 97, 115, 79, 119, 110, 80, 114, 111, 112, 101, 114, 116, 121>>
 
+ObjectFns == <<[n |-> <<103,101,116,80,114,111,116,111,116,121,112,101,79,102>>, f |-> "O_getPrototypeOf", len |-> 1],
+               [n |-> <<107,101,121,115>>, f |-> "O_keys", len |-> 1],
+               [n |-> <<103,101,116,79,119,110,80,114,111,112,101,114,116,121,78,97,109,101,115>>, f |-> "O_getOwnPropertyNames", len |-> 1],
+               [n |-> <<105,115,69,120,116,101,110,115,105,98,108,101>>, f |-> "O_isExtensible", len |-> 1],
+               [n |-> <<105,115,83,101,97,108,101,100>>, f |-> "O_isSealed", len |-> 1],
+               [n |-> <<105,115,70,114,111,122,101,110>>, f |-> "O_isFrozen", len |-> 1],
+               [n |-> <<112,114,101,118,101,110,116,69,120,116,101,110,115,105,111,110,115>>, f |-> "O_preventExtensions", len |-> 1],
+               [n |-> <<115,101,97,108>>, f |-> "O_seal", len |-> 1],
+               [n |-> <<102,114,101,101,122,101>>, f |-> "O_freeze", len |-> 1],
+               [n |-> <<99,114,101,97,116,101>>, f |-> "O_create", len |-> 2],
+               [n |-> <<103,101,116,79,119,110,80,114,111,112,101,114,116,121,68,101,115,99,114,105,112,116,111,114>>, f |-> "O_getOwnPropertyDescriptor", len |-> 2],
+               [n |-> <<100,101,102,105,110,101,80,114,111,112,101,114,116,121>>, f |-> "O_defineProperty", len |-> 3]>>
+ObjectFnNames == {ObjectFns[i].f : i \in 1..Len(ObjectFns)}
+Id_ObjectFn(i) == 28 + i         \* after the native error constructors and prototypes (17..28)
+S_defineProperties == <<100,101,102,105,110,101,80,114,111,112,101,114,116,105,101,115>>
+
 ErrorNames == <<S_Error, S_TypeError, S_ReferenceError, S_RangeError, S_SyntaxError, S_EvalError, S_URIError>>
 
 -----------------------------------------------------------------------------
@@ -82,6 +98,28 @@ ThrowErr(st, name) ==
     IN  Thr(SetH(e.st, H2), e.v)
 
 -----------------------------------------------------------------------------
+RECURSIVE Eval(_, _, _)            \* (node, cx, st) -> [st, v, thr]
+RECURSIVE EvalBody(_, _, _)
+RECURSIVE EvalRef(_, _, _)         \* (node, cx, st) -> [st, ref, thr, v]
+RECURSIVE EvalArgs(_, _, _, _, _)  \* (nodes, i, cx, st, acc)
+RECURSIVE Exec(_, _, _, _)         \* (stmt, cx, st, labels) -> completion
+RECURSIVE ExecBody(_, _, _, _)
+RECURSIVE ExecList(_, _, _, _, _)  \* (stmts, i, cx, st, V)
+RECURSIVE Call(_, _, _, _)         \* (st, f (object value), this, args)
+RECURSIVE CallIn(_, _, _, _)
+RECURSIVE Construct(_, _, _)       \* (st, f, args)
+RECURSIVE ToPrim(_, _, _)          \* (st, v, hint)
+RECURSIVE RunBody(_, _, _, _)      \* (st, body, cx, isEval)  10.5 + statement list
+RECURSIVE LoopFor(_, _, _, _, _, _)
+RECURSIVE LoopWhile(_, _, _, _, _, _)
+RECURSIVE LoopForIn(_, _, _, _, _, _, _)
+RECURSIVE CaseSearch(_, _, _, _, _, _)
+RECURSIVE CaseRun(_, _, _, _, _, _)
+RECURSIVE BindFns(_, _, _, _, _, _)
+RECURSIVE HasInstance(_, _, _)
+RECURSIVE ArrJoin(_, _, _, _, _)
+
+-----------------------------------------------------------------------------
 (* property access on objects, with the arguments-object parameter map (10.6) *)
 IsArgsObj(st, o) == st.H[o].fn.k = "args"
 MappedName(st, o, p) == IF IsArgsObj(st, o) /\ p \in DOMAIN st.H[o].fn.map THEN st.H[o].fn.map[p] ELSE <<>>
@@ -94,7 +132,7 @@ ObjGet(st, o, p) ==
     LET mp == MappedName(st, o, p)
     IN  IF mp # <<>> /\ OM!HasOwn(st.H, o, p) THEN Ok(st, EnvGetBinding(st, st.H[o].fn.env, mp))
         ELSE LET r == OM!GetReq(st.H, o, p, ObjV(o))
-             IN  IF r.k = "val" THEN Ok(st, r.v) ELSE Und(st)
+             IN  IF r.k = "val" THEN Ok(st, r.v) ELSE Call(st, r.f, r.this, <<>>)      \* 8.12.3: getter
 
 (* properties of the built-in objects that exist in every implementation but *)
 (* are not modelled here: touching one leaves the modelled fragment          *)
@@ -107,7 +145,7 @@ ObjPut(st, o, p, v) ==
     LET mp == MappedName(st, o, p)
         st1 == IF mp # <<>> /\ OM!HasOwn(st.H, o, p) THEN EnvSetBinding(st, st.H[o].fn.env, mp, v) ELSE st
         r == OM!PutReq(st1.H, o, p, v, ObjV(o))
-    IN  IF r.k = "call" THEN Und(st)
+    IN  IF r.k = "call" THEN (LET c == Call(st1, r.f, r.this, r.args) IN IF c.thr # "" THEN c ELSE Ok(c.st, v))   \* 8.12.5: setter
         ELSE IF r.thr = "RangeError" THEN ThrowErr(SetH(st1, r.H), S_RangeError)
         ELSE IF r.thr # "" THEN Und(st)
         ELSE Ok(SetH(st1, r.H), v)
@@ -204,26 +242,6 @@ ProjSeq(st, vs) == [i \in 1..Len(vs) |-> Proj(st, vs[i])]
 SeqGet(s, i) == IF i <= Len(s) THEN s[i] ELSE Undef
 
 -----------------------------------------------------------------------------
-RECURSIVE Eval(_, _, _)            \* (node, cx, st) -> [st, v, thr]
-RECURSIVE EvalBody(_, _, _)
-RECURSIVE EvalRef(_, _, _)         \* (node, cx, st) -> [st, ref, thr, v]
-RECURSIVE EvalArgs(_, _, _, _, _)  \* (nodes, i, cx, st, acc)
-RECURSIVE Exec(_, _, _, _)         \* (stmt, cx, st, labels) -> completion
-RECURSIVE ExecBody(_, _, _, _)
-RECURSIVE ExecList(_, _, _, _, _)  \* (stmts, i, cx, st, V)
-RECURSIVE Call(_, _, _, _)         \* (st, f (object value), this, args)
-RECURSIVE Construct(_, _, _)       \* (st, f, args)
-RECURSIVE ToPrim(_, _, _)          \* (st, v, hint)
-RECURSIVE RunBody(_, _, _, _)      \* (st, body, cx, isEval)  10.5 + statement list
-RECURSIVE LoopFor(_, _, _, _, _, _)
-RECURSIVE LoopWhile(_, _, _, _, _, _)
-RECURSIVE LoopForIn(_, _, _, _, _, _, _)
-RECURSIVE CaseSearch(_, _, _, _, _, _)
-RECURSIVE CaseRun(_, _, _, _, _, _)
-RECURSIVE BindFns(_, _, _, _, _, _)
-RECURSIVE HasInstance(_, _, _)
-RECURSIVE ArrJoin(_, _, _, _, _)
-
 (* 8.12.8 / 9.1 on real objects *)
 TryMethod(st, o, name) ==          \* [done, r]
     LET g == GetValue(st, [k |-> "prop", base |-> ObjV(o), n |-> name])
@@ -317,6 +335,88 @@ BindParams(st, params, args, i, env) ==
                     ELSE CreateBinding(st, env, params[i], v, FALSE, TRUE)
          IN  BindParams(st1, params, args, i + 1, env)
 
+Truthy(v) == IsO(v) \/ ToBoolean(v)
+
+(* helpers for the 15.2.3 Object constructor functions *)
+RECURSIVE FillArray(_, _, _, _)
+FillArray(H, o, vals, i) ==
+    IF i > Len(vals) THEN H
+    ELSE FillArray(OM!DefineOwn(H, o, DigitsNat(i - 1), OM!FullDataDesc(vals[i], TRUE, TRUE, TRUE)).H, o, vals, i + 1)
+MakeArray(st, vals) ==
+    LET a == Alloc(st, [OM!NewObj("Array", ArrayProto) EXCEPT !.cls = "Array"])
+        H1 == DefData(a.st.H, a.id, S_length, IntV(0), TRUE, FALSE, FALSE)
+    IN  Ok(SetH(a.st, FillArray(H1, a.id, vals, 1)), ObjV(a.id))
+
+Field(st, o, name) ==          \* 8.10.5: [[HasProperty]] then [[Get]]
+    IF OM!HasProperty(st.H, o, name)
+    THEN (LET g == ObjGet(st, o, name) IN [st |-> g.st, has |-> TRUE, v |-> g.v, thr |-> g.thr])
+    ELSE [st |-> st, has |-> FALSE, v |-> Undef, thr |-> ""]
+
+(* 8.10.5 ToPropertyDescriptor: [st, thr, v (thrown), d] *)
+ToPropDesc(st, dv) ==
+    IF ~IsO(dv) THEN (LET t == ThrowErr(st, S_TypeError) IN [st |-> t.st, thr |-> "throw", v |-> t.v, d |-> OM!EmptyDesc])
+    ELSE LET fe == Field(st, dv.id, S_enumerable)
+             fc == Field(fe.st, dv.id, S_configurable)
+             fv == Field(fc.st, dv.id, S_value)
+             fw == Field(fv.st, dv.id, S_writable)
+             fg == Field(fw.st, dv.id, S_get)
+             fs == Field(fg.st, dv.id, S_set)
+             firstBad == IF fe.thr # "" THEN fe ELSE IF fc.thr # "" THEN fc ELSE IF fv.thr # "" THEN fv
+                         ELSE IF fw.thr # "" THEN fw ELSE IF fg.thr # "" THEN fg ELSE fs
+             d == [hv |-> fv.has, v |-> fv.v, hw |-> fw.has, w |-> fw.has /\ Truthy(fw.v), he |-> fe.has, e |-> fe.has /\ Truthy(fe.v),
+                   hc |-> fc.has, c |-> fc.has /\ Truthy(fc.v), hg |-> fg.has, g |-> fg.v, hs |-> fs.has, s |-> fs.v]
+         IN  IF firstBad.thr # "" THEN [st |-> firstBad.st, thr |-> firstBad.thr, v |-> firstBad.v, d |-> OM!EmptyDesc]
+             ELSE IF (d.hg /\ d.g # Undef /\ ~IsCallableV(fs.st, d.g)) \/ (d.hs /\ d.s # Undef /\ ~IsCallableV(fs.st, d.s))
+                     \/ ((d.hg \/ d.hs) /\ (d.hv \/ d.hw))
+                  THEN (LET t == ThrowErr(fs.st, S_TypeError) IN [st |-> t.st, thr |-> "throw", v |-> t.v, d |-> OM!EmptyDesc])
+             ELSE [st |-> fs.st, thr |-> "", v |-> Undef, d |-> d]
+
+(* 8.10.4 FromPropertyDescriptor *)
+FromPropDesc(st, pr) ==
+    LET o == NewPlain(st, ObjectProto)
+        W(H, n, v) == DefData(H, o.id, n, v, TRUE, TRUE, TRUE)
+        H1 == IF pr.k = "data" THEN W(W(o.st.H, S_value, pr.v), S_writable, BoolV(pr.w))
+              ELSE W(W(o.st.H, S_get, pr.g), S_set, pr.s)
+        H2 == W(W(H1, S_enumerable, BoolV(pr.e)), S_configurable, BoolV(pr.c))
+    IN  Ok(SetH(o.st, H2), ObjV(o.id))
+
+StrVals(names) == [i \in 1..Len(names) |-> StrV(names[i])]
+
+ObjectFn(st, name, args) ==
+    LET a1 == SeqGet(args, 1)
+    IN  IF ~IsO(a1) /\ name # "O_create" THEN ThrowErr(st, S_TypeError)           \* 15.2.3.x step 1
+        ELSE IF IsO(a1) /\ st.H[a1.id].cls = "Arguments" THEN Und(st)
+        ELSE CASE name = "O_getPrototypeOf" -> Ok(st, IF st.H[a1.id].proto = 0 THEN Null ELSE ObjV(st.H[a1.id].proto))
+          [] name = "O_keys" -> MakeArray(st, StrVals(OM!OwnKeys(st.H, a1.id)))
+          [] name = "O_getOwnPropertyNames" -> MakeArray(st, StrVals(OM!OwnNames(st.H, a1.id)))
+          [] name = "O_isExtensible" -> Ok(st, BoolV(st.H[a1.id].ext))
+          [] name = "O_isSealed" -> Ok(st, BoolV(OM!IsSealed(st.H, a1.id)))
+          [] name = "O_isFrozen" -> Ok(st, BoolV(OM!IsFrozen(st.H, a1.id)))
+          [] name = "O_preventExtensions" -> Ok(SetH(st, OM!PreventExt(st.H, a1.id)), a1)
+          [] name = "O_seal" -> Ok(SetH(st, OM!Seal(st.H, a1.id)), a1)
+          [] name = "O_freeze" -> Ok(SetH(st, OM!Freeze(st.H, a1.id)), a1)
+          [] name = "O_create" ->
+                IF a1.t # "null" /\ ~IsO(a1) THEN ThrowErr(st, S_TypeError)
+                ELSE IF SeqGet(args, 2).t # "undef" THEN Und(st)
+                ELSE (LET o == NewPlain(st, IF IsO(a1) THEN a1.id ELSE 0) IN Ok(o.st, ObjV(o.id)))
+          [] name = "O_getOwnPropertyDescriptor" ->
+                (LET k == ToStr(st, SeqGet(args, 2))
+                 IN  IF k.thr # "" THEN k
+                     ELSE IF ~OM!HasOwn(k.st.H, a1.id, k.v.s) THEN Ok(k.st, Undef)
+                     ELSE IF Unmodelled(k.st, a1.id, k.v.s) THEN Und(k.st)
+                     ELSE FromPropDesc(k.st, OM!OwnProp(k.st.H, a1.id, k.v.s)))
+          [] name = "O_defineProperty" ->
+                (LET k == ToStr(st, SeqGet(args, 2))
+                 IN  IF k.thr # "" THEN k
+                     ELSE LET d == ToPropDesc(k.st, SeqGet(args, 3))
+                          IN  IF d.thr # "" THEN [st |-> d.st, v |-> d.v, thr |-> d.thr]
+                              ELSE LET r == OM!DefineOwn(d.st.H, a1.id, k.v.s, d.d)
+                                   IN  IF r.thr = "RangeError" THEN ThrowErr(SetH(d.st, r.H), S_RangeError)
+                                       ELSE IF r.thr # "" THEN Und(d.st)
+                                       ELSE IF ~r.ok THEN ThrowErr(SetH(d.st, r.H), S_TypeError)
+                                       ELSE Ok(SetH(d.st, r.H), a1))
+          [] OTHER -> Und(st)
+
 (* 13.2.1 [[Call]] *)
 CallUser(st, fid, thisV, args) ==
     LET fn == st.H[fid].fn
@@ -345,9 +445,16 @@ ListFromArrayLike(st, o, i, len, acc) ==
          IN  IF g.thr # "" THEN [st |-> g.st, l |-> acc, thr |-> g.thr]
              ELSE ListFromArrayLike(g.st, o, i + 1, len, Append(acc, g.v))
 
-Call(st, f, thisV, args) ==
-    IF ~IsCallableV(st, f) THEN ThrowErr(st, S_TypeError)
-    ELSE LET fn == st.H[f.id].fn
+(* SetStackDepthLimit(L): the global context has depth 0; entering a function (script or     *)
+(* native; a bound function adds nothing of its own) at depth d + 1 >= L raises RangeError.  *)
+Call(st0, f, thisV, args) ==
+    IF ~IsCallableV(st0, f) THEN ThrowErr(st0, S_TypeError)
+    ELSE IF st0.H[f.id].fn.k # "bound" /\ st0.limit > 0 /\ st0.depth + 1 >= st0.limit THEN ThrowErr(st0, S_RangeError)
+    ELSE LET r == CallIn(IF st0.H[f.id].fn.k = "bound" THEN st0 ELSE [st0 EXCEPT !.depth = @ + 1], f, thisV, args)
+         IN  [r EXCEPT !.st.depth = st0.depth]
+
+CallIn(st, f, thisV, args) ==
+    LET fn == st.H[f.id].fn
     IN  CASE fn.k = "user" -> CallUser(st, f.id, thisV, args)
           [] fn.k = "host" -> Ok([st EXCEPT !.log = Append(@, ProjSeq(st, args))], SeqGet(args, 1))
           [] fn.k = "bound" -> Call(st, fn.target, fn.this, fn.args \o args)
@@ -403,6 +510,7 @@ Call(st, f, thisV, args) ==
                       IF SeqGet(args, 1).t \in {"undef", "null"} THEN (LET o == NewPlain(st, ObjectProto) IN Ok(o.st, ObjV(o.id)))
                       ELSE IF IsO(args[1]) THEN Ok(st, args[1]) ELSE Und(st)
                 [] fn.name = "ErrorCtor" -> Construct(st, f, args)      \* 15.11.1: same as new
+                [] fn.name \in ObjectFnNames -> ObjectFn(st, fn.name, args)
                 [] OTHER -> Und(st))
           [] OTHER -> Und(st)
 
@@ -418,12 +526,15 @@ Construct(st, f, args) ==
           [] fn.k = "bound" -> Construct(st, fn.target, fn.args \o args)       \* 15.3.4.5.2
           [] fn.k = "builtin" /\ fn.name = "Object" -> Call(st, f, Undef, args)
           [] fn.k = "builtin" /\ fn.name = "ErrorCtor" ->
-             LET m == IF SeqGet(args, 1).t = "undef" THEN Ok(st, StrV(<<>>)) ELSE ToStr(st, args[1])
-             IN  IF m.thr # "" THEN m
+             IF st.limit > 0 /\ st.depth + 1 >= st.limit THEN ThrowErr(st, S_RangeError)     \* a native constructor is a call too
+             ELSE
+             LET stD == [st EXCEPT !.depth = @ + 1]
+                 m == IF SeqGet(args, 1).t = "undef" THEN Ok(stD, StrV(<<>>)) ELSE ToStr(stD, args[1])
+             IN  IF m.thr # "" THEN [m EXCEPT !.st.depth = st.depth]
                  ELSE LET a == Alloc(m.st, [OM!NewObj("Error", fn.proto) EXCEPT !.fn = [k |-> "error"]])
                           H2 == IF SeqGet(args, 1).t = "undef" THEN a.st.H
                                 ELSE DefData(a.st.H, a.id, S_message, m.v, TRUE, FALSE, TRUE)
-                      IN  Ok(SetH(a.st, H2), ObjV(a.id))
+                      IN  Ok([SetH(a.st, H2) EXCEPT !.depth = st.depth], ObjV(a.id))
           [] OTHER -> IF fn.k \in {"host", "builtin"} THEN Und(st) ELSE ThrowErr(st, S_TypeError)
 
 (* 15.3.5.3 / 15.3.4.5.3 *)
@@ -480,7 +591,6 @@ UnaryOp(st, op, v) ==
       [] OTHER -> LET a == ToNum(st, v)
                   IN  IF a.thr # "" THEN a ELSE (LET q == OPS!Unary(op, a.v, <<>>) IN Ok(a.st, q.v))
 
-Truthy(v) == IsO(v) \/ ToBoolean(v)
 
 -----------------------------------------------------------------------------
 (* 11: expressions *)
@@ -512,11 +622,14 @@ ThisOfRef(ref) ==
     ELSE Undef
 
 RECURSIVE ObjLitProps(_, _, _, _, _)
-ObjLitProps(prs, i, cx, st, o) ==
+ObjLitProps(prs, i, cx, st, o) ==                  \* 11.1.5
     IF i > Len(prs) THEN Ok(st, ObjV(o))
     ELSE LET r == Eval(prs[i].val, cx, st)
          IN  IF r.thr # "" THEN r
-             ELSE LET d == OM!DefineOwn(r.st.H, o, prs[i].key, OM!FullDataDesc(r.v, TRUE, TRUE, TRUE))
+             ELSE LET desc == CASE prs[i].kind = "get" -> [OM!EmptyDesc EXCEPT !.hg = TRUE, !.g = r.v, !.he = TRUE, !.e = TRUE, !.hc = TRUE, !.c = TRUE]
+                                [] prs[i].kind = "set" -> [OM!EmptyDesc EXCEPT !.hs = TRUE, !.s = r.v, !.he = TRUE, !.e = TRUE, !.hc = TRUE, !.c = TRUE]
+                                [] OTHER -> OM!FullDataDesc(r.v, TRUE, TRUE, TRUE)
+                      d == OM!DefineOwn(r.st.H, o, prs[i].key, desc)
                   IN  ObjLitProps(prs, i + 1, cx, SetH(r.st, d.H), o)
 
 RECURSIVE ArrLitElems(_, _, _, _, _)
@@ -625,12 +738,17 @@ EvalBody(node, cx, st) ==
                          ELSE Construct(a.st, fv.v, a.l)
       [] node.k = "eval" ->                                                   \* 15.1.2.1, 10.4.2
             \* direct: the caller's context; indirect: the global context
+            \* stack depth: a direct eval runs in the caller's context; an indirect one is a native
+            \* call that then enters the global context (two levels)
             LET ecx == IF node.direct THEN cx ELSE [lex |-> GlobalEnv, var |-> GlobalEnv, this |-> ObjV(GlobalObj)]
-                c == RunBody(st, node.prog, ecx, TRUE)
-            IN  CASE c.ty = "normal" -> Ok(c.st, IF c.v = Empty THEN Undef ELSE c.v)
-                  [] c.ty = "throw" -> Thr(c.st, c.v)
-                  [] c.ty = "interrupt" -> Intr(c.st)
-                  [] OTHER -> Und(c.st)
+                extra == IF node.direct THEN 0 ELSE 2
+            IN  IF extra > 0 /\ st.limit > 0 /\ st.depth + extra >= st.limit THEN ThrowErr(st, S_RangeError)
+                ELSE LET c == RunBody([st EXCEPT !.depth = @ + extra], node.prog, ecx, TRUE)
+                         stR == [c.st EXCEPT !.depth = st.depth]
+                     IN  CASE c.ty = "normal" -> Ok(stR, IF c.v = Empty THEN Undef ELSE c.v)
+                           [] c.ty = "throw" -> Thr(stR, c.v)
+                           [] c.ty = "interrupt" -> Intr(stR)
+                           [] OTHER -> Und(stR)
       [] OTHER -> Und(st)
 
 -----------------------------------------------------------------------------
@@ -846,6 +964,7 @@ BaseObjects ==
     \o [j \in 1..(2 * Len(NativeErrs)) |->
           IF j % 2 = 1 THEN ErrCtorObj(Id_NProto((j + 1) \div 2))
           ELSE [OM!NewObj("Error", ErrorProto) EXCEPT !.fn = [k |-> "error"]]]
+    \o [j \in 1..Len(ObjectFns) |-> Builtin(ObjectFns[j].f)]
 
 RECURSIVE WireNative(_, _)
 WireNative(H, i) ==
@@ -886,11 +1005,16 @@ Heap0 ==
         h17 == W(h16, GlobalObj, S_H, ObjV(HostH))
         h18 == DefAll(h17, GlobalObj, <<S_eval, S_Function, S_Array, S_String, S_Number, S_Boolean, S_Date, S_RegExp,
                                          S_Math, S_JSON, S_parseInt, S_parseFloat, S_isNaN, S_isFinite, S_console>>, UM)
-    IN  h18
+        RECURSIVE WireObjectFns(_, _)
+        WireObjectFns(H, j) ==
+            IF j > Len(ObjectFns) THEN H
+            ELSE WireObjectFns(DefData(W(H, Id_Object, ObjectFns[j].n, ObjV(Id_ObjectFn(j))), Id_ObjectFn(j), S_length, IntV(ObjectFns[j].len), FALSE, FALSE, FALSE), j + 1)
+        h19 == DefAll(WireObjectFns(h18, 1), Id_Object, <<S_defineProperties>>, UM)
+    IN  h19
 
 State0(fuel) ==
     [H |-> Heap0, E |-> <<[k |-> "obj", o |-> GlobalObj, withThis |-> FALSE, outer |-> 0]>>, log |-> <<>>, fuel |-> fuel,
-     poll |-> 0, abortAt |-> 0, aborted |-> FALSE]
+     poll |-> 0, abortAt |-> 0, aborted |-> FALSE, depth |-> 0, limit |-> 0]
 
 GlobalCx == [lex |-> GlobalEnv, var |-> GlobalEnv, this |-> ObjV(GlobalObj)]
 
@@ -924,8 +1048,8 @@ RunSeq(progs, fuel) == RunSeqFrom(State0(fuel), progs, 1, fuel)
 
 (* C18: run P with an interrupt delivered at polling point k (0 = never), then run the   *)
 (* follow-up program Q on the state the first run left behind.                            *)
-RunThen(body, k, follow, fuel) ==
-    LET c1 == RunBody([State0(fuel) EXCEPT !.abortAt = k], body, GlobalCx, FALSE)
+RunThen(body, k, follow, fuel, limit) ==
+    LET c1 == RunBody([State0(fuel) EXCEPT !.abortAt = k, !.limit = limit], body, GlobalCx, FALSE)
         st1 == [c1.st EXCEPT !.abortAt = 0, !.log = <<>>, !.fuel = fuel]
         c2 == RunBody(st1, follow, GlobalCx, FALSE)
     IN  [first |-> Outcome(c1), polls |-> c1.st.poll, second |-> Outcome(c2)]
